@@ -503,3 +503,44 @@ Example ex_delivers_all_nonvacuous :
   exists s, run init [HSend; HSend; HDo 1 (DoStatus 200); HDo 0 (DoStatus 204); HSend; HRecv 1; HDo 2 DoErr; HRecv 2] = Some s /\
             forallb is_done (gs s) = true /\ phase s = COpen.
 Proof. eexists. split; [vm_compute; reflexivity|]. split; reflexivity. Qed.
+
+(** * Close waits for every Send (explicit form of the mechanism behind chan_no_leak).
+      In the model HSend appends the goroutine AND increments wg in one label
+      (Go: c.wg.Add(1) executed by Send itself, before the go statement), so the
+      closer's wg.Wait cannot pass while any goroutine started by an accepted Send
+      has not returned: from the moment c.rsp is closed -- a fortiori once Close has
+      returned -- every accepted Send has a goroutine, that goroutine made its round
+      trip (exactly one Do result) and is Done; none is Doing or Holding. *)
+Theorem close_waits_for_every_send tr s :
+  run init tr = Some s -> phase s = CRspClosed \/ phase s = CReturned ->
+  wg s = 0 /\ length (gs s) = n_send tr /\
+  forall j, j < n_send tr ->
+    exists r d, nth_error (gs s) j = Some (Done r d) /\ dos j tr = [r].
+Proof.
+  intros R P. destruct (run_sinv _ _ R) as (Hw & _ & Hp & _).
+  assert (Z : sum live1 (gs s) = 0) by (destruct P as [P|P]; rewrite P in Hp; exact Hp).
+  destruct (sum_live_zero _ Z) as (_ & _ & Dn). destruct (run_tinv _ _ R) as [Hl Hf].
+  split; [lia|]. split; [exact Hl|]. intros j Hj. rewrite <- Hl in Hj.
+  destruct (nth_error (gs s) j) as [g|] eqn:E; [|apply nth_error_None in E; lia].
+  destruct (Dn _ _ E) as (r & d & ->). exists r, d. split; [reflexivity|].
+  specialize (Hf j). rewrite E in Hf. cbn in Hf. destruct d; tauto.
+Qed.
+
+(* c.rsp is closed only when the WaitGroup counter is zero, and the counter is the
+   number of request goroutines that have not returned -- at every reachable state *)
+Theorem rsp_closed_only_when_idle tr s s' :
+  run init tr = Some s -> step s HRspClose = Some s' ->
+  wg s = 0 /\ forall j g, nth_error (gs s) j = Some g -> exists r d, g = Done r d.
+Proof.
+  intros R St. destruct (run_sinv _ _ R) as (Hw & _ & _ & _).
+  unfold step in St; cbn in St. destruct (phase s); try discriminate.
+  destruct (wg s) eqn:W; [|discriminate]. split; [reflexivity|].
+  assert (Z : sum live1 (gs s) = 0) by lia. destruct (sum_live_zero _ Z) as (_ & _ & Dn). exact Dn.
+Qed.
+
+(* a Close that is called right after k Sends, before any round trip has been made,
+   cannot return: neither the closer nor the drain loop has an enabled step *)
+Example ex_close_right_after_sends :
+  exists s, run init [HSend; HSend; HClose] = Some s /\ enabled_internal s = [] /\
+            step s HRspClose = None /\ step s HCloseDone = None /\ wg s = 2.
+Proof. eexists. split; [vm_compute; reflexivity|]. repeat split. Qed.
